@@ -232,7 +232,9 @@ def launcher_rule(model, res):
     for s in mod.tree.body:
         if isinstance(s, (ast.Assign, ast.AnnAssign)):
             tg = s.targets[0] if isinstance(s, ast.Assign) else s.target
-            if isinstance(tg, ast.Name) and tg.id not in allowed:
+            # only objects that CAN carry state: an alias of a function, a number, a string, a tuple is not state
+            from ..rules.fresh import _is_mutable_value
+            if isinstance(tg, ast.Name) and tg.id not in allowed and _is_mutable_value(s.value):
                 extra.append(tg.id)
     globs = [g for s in ast.walk(mod.tree) if isinstance(s, ast.Global) for g in s.names if g not in allowed]
     res.ob("R-SHARE", f"module globals of core.backtest: only {sorted(allowed)}", mod.relpath, ok=not extra and not globs,
